@@ -54,6 +54,8 @@ func (e event) String() string {
 		crash = fmt.Sprintf("; n%d crashes %s its durable write #%d and restarts", e.Node, ph, e.CrashAt)
 	}
 	switch e.Kind {
+	case "opposite-schedule":
+		return "(every transition under the opposite of the default schedule)"
 	case "create":
 		return fmt.Sprintf("create(via n%d, P=%d R=%d space=%d%s)", e.Node, e.P, e.R, e.Space, crash)
 	case "delete":
@@ -127,6 +129,10 @@ func build(nNodes int, path []event) (*wld, string, string) {
 		return fail("setup:"+v.Key, v.Desc)
 	}
 	for _, e := range path {
+		if e.Kind == "opposite-schedule" {
+			w.Opposite = true // every later transition runs under the opposite of the default schedule (sim.oppositePick)
+			continue
+		}
 		k, d := w.apply(e)
 		if os.Getenv("VERIF_DEBUG") != "" {
 			fmt.Fprintf(os.Stderr, "after %v: %s | %s\n", e, k, w.canon())
@@ -663,8 +669,14 @@ func main() {
 						continue
 					}
 					for j := 1; j <= n; j++ {
-						for _, after := range []bool{false, true} {
-							path := append([]event{}, base...)
+						for _, mode := range [][2]bool{{false, false}, {true, false}, {false, true}, {true, true}} {
+							after, opp := mode[0], mode[1]
+							var path []event
+							if opp {
+								// the same crash point with every transition under the opposite of the default schedule
+								path = append(path, event{Kind: "opposite-schedule"})
+							}
+							path = append(path, base...)
 							path[len(path)-1].CrashAt, path[len(path)-1].CrashAfter = j, after
 							// afterwards the node is used again: one more create must work and be listed everywhere
 							path = append(path, event{Kind: "create", Node: via, P: 1, R: 1, Space: 2})
